@@ -13,6 +13,12 @@ CONSTANTS MaxN = 3
   HoldData <- DataHoldThorough
   HoldForms <- FormsHoldThorough
   HoldRc = {FALSE, TRUE}
+  Muts = {TRUE}
+  MutScenarios <- ScenMutThorough
+  MutData <- DataMutThorough
+  MutForms <- FormsMutThorough
+  MutRc = {FALSE, TRUE}
+  MaxRep = 2
   KeepHistory = FALSE
   Design = "allowed"
 VIEW view
